@@ -70,3 +70,32 @@ func VH_C03_StoredHostileProfileDoesNotBreakOthers() {
 	faulted = c03Contained(HandleGetClientInfoText, e.other, &t3)
 	vAssert("client_info_of_other_client_not_broken", !faulted)
 }
+
+// A pending transfer a hostile client registered with a malformed size field (any length 0..5, the request is
+// accepted as it is) must not make another client's request fault: an administrator asking for that user's info
+// text - which lists the user's transfers with their progress - is answered.
+func VH_C03_HostileTransferSizeDoesNotBreakClientInfo() {
+	vUnroll(200)
+	e := vNewEnv()
+	e.srv.FileTransferMgr = hotline.NewMemFileTransferMgr()
+	e.cc.ClientFileTransferMgr = hotline.NewClientFileTransferMgr()
+	e.cc.Account.Access = hotline.AccessBitmap{0xff, 0xff, 0xff, 0xff, 0xff, 0xff, 0xff, 0xff}
+	e.other.Account.Access = hotline.AccessBitmap{0xff, 0xff, 0xff, 0xff, 0xff, 0xff, 0xff, 0xff}
+	size := vBytesEach("transfer_size_field", 5)
+	fields := []hotline.Field{f(hotline.FieldFileName, []byte("x.bin")), f(hotline.FieldFilePath, vPathField("Uploads"))}
+	if !vBool("size_field_absent") {
+		fields = append(fields, f(hotline.FieldTransferSize, size))
+	}
+	folder := vBool("folder_upload")
+	if folder {
+		t := hotline.NewTransaction(hotline.TranUploadFldr, e.cc.ID, fields...)
+		c03Contained(HandleUploadFolder, e.cc, &t)
+	} else {
+		vAssume(!e.fs.exists)
+		t := hotline.NewTransaction(hotline.TranUploadFile, e.cc.ID, fields...)
+		c03Contained(HandleUploadFile, e.cc, &t)
+	}
+	t3 := hotline.NewTransaction(hotline.TranGetClientInfoText, e.other.ID, f(hotline.FieldUserID, e.cc.ID[:]))
+	faulted := c03Contained(HandleGetClientInfoText, e.other, &t3)
+	vAssert("client_info_not_broken_by_a_malformed_transfer_size", !faulted)
+}
